@@ -13,8 +13,6 @@ except ImportError as _e:       # parts under construction
 
 # public callables that take no part, with the reason (listed in the evidence)
 EXCLUDED = {
-    "static.vector.vector_decomposition_sq": "raises on the pinned pandas (in-place division on a read-only array) with and without history",
-    "static.vector.vector_fft_corr": "calls vector_decomposition_sq (see there)",
     "static.vector.kspace_decomposition": "empty stub in the library",
     "utils.coarse_graining.atomic_position_average": "empty stub in the library",
     "utils.logging.get_logger_handle": "logging infrastructure, not an analysis (adds a handler per call by design)",
